@@ -11,6 +11,9 @@ NOTE = ("Trusted base: the Go type checker (go/types), go/packages loading of /r
 
 # id -> (technique, level text, design ref)
 CLAIMS = {
+ "C29": ("controlling-condition analysis (SSA CFG) of the argument store in importValidatedArguments + who-may-call + pinned recursion census of ConformsToStaticType + SSA error-flow of the type-conversion/import functions",
+         "Structural necessary conditions: an argument is accepted only under all six validation outcomes, decoding/import is reachable only through the validating function, nested values are conformance-checked, and no conversion error is dropped or overwritten.",
+         "DESIGN.md §4 C29"),
  "C46": ("bounds-obligation discharge on the SSA form of stdlib/rlp (subtractive bound test dominating every sum of a decoded length, guard dominance for every index/slice of the input) + error/trailing-bytes dominance in the stdlib wrappers",
          "Structural necessary conditions: no decoded length is added before being bounded by the remaining input, every index and slice of the input is dominated by its bound test, and the wrappers fail on decoder errors and trailing bytes on every path.",
          "DESIGN.md §4 C46"),
